@@ -560,10 +560,14 @@ func (e *SpecEnv) index(x *SX) Term {
 		}
 		return sel(arr, add(sliceOff(b), i), es)
 	case KStr:
-		return sel(Term{"(str-arr " + b.S + ")", nil}, i, bvSort(8, false))
+		r := sel(Term{"(str-arr " + b.S + ")", nil}, i, bvSort(8, false))
+		e.directPattern(x, i, r)
+		return r
 	case KArray:
 		el := b.T.Go.Underlying().(*types.Array).Elem()
-		return sel(b, i, u.tc.sortOf(el))
+		r := sel(b, i, u.tc.sortOf(el))
+		e.directPattern(x, i, r)
+		return r
 	case KRef:
 		if at, ok := u.pointee(b).Underlying().(*types.Array); ok {
 			hn, hs, es := u.elemHeapName(at.Elem())
@@ -842,6 +846,25 @@ func (e *SpecEnv) call(x *SX) Term {
 			e.bad("ival needs an interface value")
 		}
 		return Term{"(i-val " + a.S + ")", sInt}
+	case "asptr":
+		// asptr(x, T): the pointer to T stored in interface value x (meaningful when typeof(x) == typeid(*T))
+		a := e.eval(args[0])
+		if a.T.K != KIface || args[1].Op != "ident" && args[1].Op != "field" {
+			e.bad("asptr(interface value, Type)")
+		}
+		tn := args[1].Tok
+		pkg := e.pkg
+		if args[1].Op == "field" {
+			pkg = u.eng.pkgByName[args[1].Args[0].Tok]
+		}
+		if pkg == nil {
+			e.bad("asptr: unknown package")
+		}
+		obj := pkg.Pkg.Scope().Lookup(tn)
+		if obj == nil {
+			e.bad("asptr: unknown type %s", tn)
+		}
+		return Term{"(i-val " + a.S + ")", &Sort{K: KRef, Go: types.NewPointer(obj.Type())}}
 	case "bval":
 		// the fixed-width payload of an interface value, as a 64-bit vector
 		a := e.eval(args[0])
@@ -1007,6 +1030,20 @@ func (e *SpecEnv) seqOf(x *SX) Term {
 }
 
 var _ = token.ADD
+
+// directPattern registers (select a q) as a trigger when the index is exactly a (non-shifted) bound variable
+// and the array does not itself mention a bound variable.
+func (e *SpecEnv) directPattern(x *SX, i Term, r Term) {
+	if e.pats == nil || x.Args[1].Op != "ident" {
+		return
+	}
+	if _, shifted := e.shift[x.Args[1].Tok]; shifted {
+		return
+	}
+	if bt, ok := e.bound[x.Args[1].Tok]; ok && bt.S == i.S && !strings.Contains(strings.Replace(r.S, i.S, "", -1), "q_") {
+		*e.pats = append(*e.pats, r.S)
+	}
+}
 
 // findPivot finds an expression s such that the body contains s[v] with v the bound variable and s not
 // depending on any bound variable.
